@@ -72,8 +72,22 @@ class C07(Prop):
             ck["serde"] = {"$serde": {"kind": "faildeser", "inner": rng.choice([None, {"kind": "pickle"}])}}
         keys = gen.pick_keys(rng, rng.randint(2, 4))
         steps = []
+        corrupt = None
+        if not deser and rng.random() < 0.06:
+            # an item marked compressed whose bytes are not a compressed stream (truncated, foreign writer, other
+            # codec): undeserialisable - a miss
+            ck["serde"] = {"$serde": {"kind": "compressed", "min": 1}}
+            pfx = codec.dec(ck.get("key_prefix", E(b"")))
+            if isinstance(pfx, str):
+                pfx = pfx.encode()
+            corrupt = keys[0]
+            ckb = corrupt.encode("utf8") if isinstance(corrupt, str) else corrupt
+            steps.append({"t": "direct", "node": 0, "key": E(pfx + ckb), "value": E(rng.choice([b"x\x9cNOT-ZLIB", b"", b"\x00"])),
+                          "flags": rng.choice([8, 8 | 16, 8 | 2])})
+            for n in w["nodes"][1:]:
+                steps.append(dict(steps[-1], node=n["id"]))
         for k in keys:
-            if rng.random() < 0.8:
+            if rng.random() < 0.8 and k is not corrupt:
                 steps.append({"t": "call", "m": "set", "a": [E(k), E(gen.pick_value(rng))],
                               "k": {"noreply": False}})
         many = None
@@ -115,6 +129,11 @@ class C07(Prop):
             # the pooled connection idles out first: its eviction happens inside the next read
             steps.append({"t": "advance", "dt": idle + rng.choice([1, 30])})
         read_steps = []
+        if corrupt is not None:
+            for _ in range(rng.randint(1, 3)):
+                st = self.read_call(rng, stack, [corrupt] + keys[1:2])
+                st["expect_miss_for"] = E(corrupt)
+                steps.append(st)
         failover = stack == "hash" and down is not None and rng.random() < 0.6
         if failover:
             # the reads themselves walk the server(s) through the whole failover: first failure, every retry
@@ -234,6 +253,22 @@ class C07(Prop):
                 if rec.outcome == "raise":
                     out.append(viol("read-raised-despite-ignore_exc", rec, exc=type(rec.exc).__name__,
                                     msg=engine._exc_text(rec.exc)[:80], fired=[list(f) for f in rec.fired]))
+                    continue
+                if "expect_miss_for" in st and not rec.fired:
+                    # the item the call asked for is undeserialisable: for that key the answer is the miss value
+                    ck_ = codec.dec(st["expect_miss_for"])
+                    m = miss.get(rec.step)
+                    if m is not None and m.outcome == "return":
+                        want, got = m.value, rec.value
+                        if isinstance(got, dict) and isinstance(want, dict):
+                            if ck_ in got:
+                                out.append(viol("failure-result-differs-from-miss", rec, disc="undeserialisable-item",
+                                                got=rec.enc_outcome()))
+                        elif not model.results_equal(want, got):
+                            single = (codec.dec(st["a"][0]) == ck_) if st["a"] else False
+                            if single:
+                                out.append(viol("failure-result-differs-from-miss", rec, disc="undeserialisable-item",
+                                                miss=codec.enc(want), got=rec.enc_outcome()))
                     continue
                 if not rec.fired:
                     continue
